@@ -393,6 +393,7 @@ func runC13(e *Engine, r *Report) {
 		})
 		r.floor("VAL-frame-delivery", n, 1)
 	}
+	ruleCodecLenPrefix(e, r, 20, "raftpb", "sovRaft")
 }
 
 // fields of a type covered by the constant part of its SizeUpperLimit
